@@ -543,3 +543,48 @@ def loc(module: Module, node: ast.AST) -> str:
     """file:line:col of a node."""
     return (f"{module.relpath}:{getattr(node, 'lineno', 0)}:"
             f"{getattr(node, 'col_offset', 0)}")
+
+
+def single_assignments(fn: ast.AST) -> dict[str, ast.expr]:
+    """Local names of a function that are bound exactly once, by a plain
+    `name = expr` / `name: T = expr` statement (not in a loop or branch
+    that could leave them unbound - the caller decides whether that
+    matters), mapped to the bound expression."""
+    count: dict[str, int] = {}
+    val: dict[str, ast.expr] = {}
+    params = set()
+    if isinstance(fn, (ast.FunctionDef, ast.AsyncFunctionDef)):
+        a = fn.args
+        params = {x.arg for x in a.args + a.kwonlyargs + a.posonlyargs}
+        if a.vararg:
+            params.add(a.vararg.arg)
+        if a.kwarg:
+            params.add(a.kwarg.arg)
+    for n in ast.walk(fn):
+        if isinstance(n, ast.Name) and isinstance(n.ctx, ast.Store):
+            count[n.id] = count.get(n.id, 0) + 1
+        if isinstance(n, ast.Assign) and len(n.targets) == 1 and isinstance(
+                n.targets[0], ast.Name):
+            val[n.targets[0].id] = n.value
+        elif isinstance(n, ast.AnnAssign) and n.value is not None and \
+                isinstance(n.target, ast.Name):
+            val[n.target.id] = n.value
+    return {k: v for k, v in val.items() if count.get(k) == 1
+            and k not in params}
+
+
+def inline_locals(fn: ast.AST, e: ast.expr, depth: int = 6) -> ast.expr:
+    """`e` with every single-assignment local of `fn` replaced by the
+    expression it is bound to (aliases and hoisted temporaries)."""
+    import copy
+    sa_ = single_assignments(fn)
+
+    class T(ast.NodeTransformer):
+        def __init__(self, d: int) -> None:
+            self.d = d
+
+        def visit_Name(self, n: ast.Name) -> ast.AST:
+            if isinstance(n.ctx, ast.Load) and n.id in sa_ and self.d > 0:
+                return T(self.d - 1).visit(copy.deepcopy(sa_[n.id]))
+            return n
+    return ast.fix_missing_locations(T(depth).visit(copy.deepcopy(e)))
